@@ -68,6 +68,14 @@ def hms(secs):
     return '%02d:%02d:%02d' % (secs // 3600, (secs // 60) % 60, secs % 60)
 
 
+def cover_zone(res, role, z, n_named):
+    z = z.upper()
+    if z.startswith('GMT') and len(z) > 3:
+        res.cover('GMT+-h[:mm] form as %s zone' % role, z)
+    else:
+        res.cover('zone abbreviation of the table as %s zone' % role, z, n_named)
+
+
 def gen_duration(rng):
     words = lex.duration_words('en')
     parts = []
@@ -88,7 +96,7 @@ def run_shard(ctx):
     zones = sorted(lex.admissible_zones('en').items())
     table = lex.zones()
     res.notes.append('shard %d: clock %s, process TZ %s, %d admissible zone names' % (ctx.shard, clock_name, tz, len(zones)))
-    every_default = iter(zones[ctx.shard::ctx.nshards]) if ctx.thorough() else iter(zones[ctx.shard::ctx.nshards][:2])
+    every_default = iter(zones[ctx.shard::ctx.nshards])      # every admissible zone name is the default zone of one batch
     while not ctx.out_of_time():
         nxt = next(every_default, None)
         if nxt is not None:
@@ -98,6 +106,7 @@ def run_shard(ctx):
             dz = rng.choice(DEFAULT_ZONES)
             doff = table[dz] if dz in table else {'GMT+5:30': 330, 'GMT-11': -660}[dz]
         cfg = mon.cfg_with(tz=dz)
+        cover_zone(res, 'default', dz, len(zones))
         # set_timezone / get_time_offset protocol, including a rejected name
         bad = rng.choice(['XYZ', 'Europe/Paris', '', 'utc+1', 'ABCDE', '12'])
         pre = [{'op': 'set_timezone', 'tz': bad}, {'op': 'get_time_offset'}]
@@ -112,6 +121,7 @@ def run_shard(ctx):
                 z, off = gen_zone(rng, zones)
                 zt = z if rng.random() < 0.8 else z.lower()
                 text, cls = '%s %s' % (tt, zt), 'anchored'
+                cover_zone(res, 'source', z, len(zones))
                 want = (W, z.upper(), off)
             elif r < 0.6:
                 z1, o1 = gen_zone(rng, zones)
@@ -119,9 +129,13 @@ def run_shard(ctx):
                 conn = rng.choice(['to', 'to', 'as', 'in', 'into', 'TO'])
                 if rng.random() < 0.3:
                     text, cls = '%s %s %s' % (tt, conn, z2), 'convert-from-default'
+                    cover_zone(res, 'target', z2, len(zones))
                     want = (W - doff * 60 + o2 * 60, z2.upper(), o2)
                 else:
                     text, cls = '%s %s %s %s' % (tt, z1, conn, z2), 'convert'
+                    cover_zone(res, 'source', z1, len(zones))
+                    cover_zone(res, 'target', z2, len(zones))
+                    res.cover('ordered pair of zone offsets converted (minutes)', '%d>%d' % (o1, o2))
                     want = (W - o1 * 60 + o2 * 60, z2.upper(), o2)
             elif r < 0.85:
                 dt, D = gen_duration(rng)
